@@ -3,11 +3,13 @@
 //! evaluated on the same inputs.
 mod c03;
 mod c15;
+mod chars;
 mod core;
 mod docs;
 mod xml;
 mod emit;
 mod json;
+mod outp;
 mod rng;
 
 use json::J;
@@ -21,6 +23,18 @@ pub struct Ctx {
     pub rng: rng::Rng,
     pub meta: Vec<(&'static str, J)>,
     pub args: Vec<String>,
+    /// failures observed on the implementation by the harness itself
+    pub impl_failures: Vec<J>,
+    pub shards: Vec<J>,
+    pub verif: String,
+}
+impl Ctx {
+    /// exhaustive comparison of the model's character functions with std over Sigma
+    pub fn add_chars(&mut self) {
+        let (files, fails, _) = chars::emit(&self.out, &self.verif);
+        self.shards.extend(files);
+        self.impl_failures.extend(fails);
+    }
 }
 
 fn main() {
@@ -57,10 +71,14 @@ fn main() {
     }
     std::fs::create_dir_all(&out).unwrap();
     std::panic::set_hook(Box::new(|_| {})); // panics of the library are outcomes, not noise
-    let mut ctx = Ctx { prop: prop.clone(), thorough, seed, out: out.clone(), rng: rng::Rng::new(seed), meta: vec![], args: rest };
+    let mut ctx = Ctx { prop: prop.clone(), thorough, seed, out: out.clone(), rng: rng::Rng::new(seed), meta: vec![], args: rest, impl_failures: vec![], shards: vec![], verif: std::env::var("XSG_VERIF").unwrap_or("/verif".to_string()) };
     match prop.as_str() {
         "C15" => c15::run(&mut ctx),
         "C03" => c03::run(&mut ctx),
+        "unicode-table" => {
+            print!("{}", chars::table_source());
+            return;
+        }
         _ => {
             eprintln!("unknown property or tool {}", prop);
             std::process::exit(2);
@@ -68,5 +86,7 @@ fn main() {
     }
     let mut kv = vec![("property", json::s(&prop)), ("tier", json::s(if thorough { "thorough" } else { "quick" })), ("seed", J::N(seed as i64))];
     kv.extend(ctx.meta.into_iter());
+    kv.push(("impl_failures", J::A(ctx.impl_failures)));
+    kv.push(("shards", J::A(ctx.shards)));
     std::fs::write(out.join("meta.json"), json::obj(kv).to_string()).unwrap();
 }
